@@ -40,8 +40,7 @@ def run_variant(ctx, variant, scenarios, modes, agg):
     def one(job):
         env = core.env_for(variant)
         if variant == "asan":
-            env["VH_LSAN"] = "1"
-            env["ASAN_OPTIONS"] = env["ASAN_OPTIONS"].replace("detect_leaks=0", "detect_leaks=1")
+            env.update(core.lsan_env(exe))
         return job, core.run(job["cmd"], 1800, env=env)
 
     with cf.ThreadPoolExecutor(max_workers=16) as ex:
@@ -185,6 +184,7 @@ def run(ctx):
         ctx.sample({"scenario": k, "N": agg[k]["N"], "k_enumerated": "1..%s" % ((agg[k]["N"] or 0) + 1), "sites": sorted(agg[k]["sites"])[:6]})
     if cases < 100 or len(sites) < 10:
         raise core.Inconclusive("too few cases/sites: %d/%d" % (cases, len(sites)))
+    cov["leak_sanitizer_queries"] = "on (probe with an intentional leak was reported)" if core.lsan_env(exe) else "off: the leak checker does not work in this environment (libc-level leaks are then not observed)"
     ctx.assumptions += ["only allocations routed through the PMemVTable are failed (libc-internal allocations of fopen/opendir/dlopen/getaddrinfo are not)",
                         "a block retained in a global and released by p_libsys_shutdown is not counted as a leak",
                         "scenarios are representative call sequences per module, not every public entry point in every state"]
